@@ -456,7 +456,11 @@ fn gen_wild_space(ch: &mut Ch, kind: KindTag) -> SpaceCfg {
             }
             Comp::SO2 { bounds } => {
                 if ch.prob(0.4) {
-                    *bounds = Some(match ch.below(6) {
+                    *bounds = Some(match ch.below(8) {
+                        // intervals that touch [-pi, pi] from outside at one point (the
+                        // constructor must reject them; if it does not, they must still work)
+                        6 => ch.pick(&[(PI, 4.0), (-4.0, -PI), (PI, f64::INFINITY), (f64::NEG_INFINITY, -PI)]),
+                        7 => (next_down(PI), 4.0),
                         0 => (-4.0, 4.0),
                         1 => (-PI, PI),
                         2 => (-5.0, ch.range(-3.0, 3.0)),
